@@ -20,6 +20,8 @@ mod server_error;
 mod server_state;
 mod user_id;
 mod utilities;
+#[cfg(agdb_verif)]
+mod verif;
 
 use server_error::ServerResult;
 use tokio::net::TcpListener;
